@@ -2,5 +2,7 @@ package sim
 
 // OraclesFor returns every oracle; all run in every profile.
 func OraclesFor(c *Chain) []Oracle {
-	return []Oracle{NewOracleC03(), NewOracleC04(), NewOracleC05(), NewOracleC06(), NewOracleC07(), NewOracleC08(), NewOracleC09(), NewOracleC10()}
+	dt := NewDisputeTracker()
+	return []Oracle{NewOracleC03(), NewOracleC04(), NewOracleC05(), NewOracleC06(), NewOracleC07(), NewOracleC08(), NewOracleC09(), NewOracleC10(),
+		NewOracleC11(dt), NewOracleC12(dt), NewOracleC13(dt)}
 }
